@@ -180,16 +180,12 @@ Qed.
 Lemma rune_map_copy_irrelevant f s : rune_map f 0 false s = rune_map f 0 true s.
 Proof. destruct s; reflexivity. Qed.
 
-Section RuneMapClosed.
-  Variable f : N -> nat -> option string.
-  Variable Q : string -> Prop.
-  Hypothesis Q_nil : Q EmptyString.
-  Hypothesis Q_high : forall c rest, (128 <= code c)%N -> Q rest -> Q (String c rest).
-  Hypothesis Q_ascii : forall c rest, (code c < 128)%N -> f (code c) 1%nat = None -> Q rest -> Q (String c rest).
-  Hypothesis Q_esc : forall rn w e rest, f rn w = Some e -> Q rest -> Q (e ++ rest).
-
-  Lemma rune_map_closed : forall s skip copy,
-    (copy = true -> contsb skip s = true) -> Q (rune_map f skip copy s).
+Lemma rune_map_closed (f : N -> nat -> option string) (Q : string -> Prop)
+  (Q_nil : Q EmptyString)
+  (Q_high : forall c rest, (128 <= code c)%N -> Q rest -> Q (String c rest))
+  (Q_ascii : forall c rest, (code c < 128)%N -> f (code c) 1%nat = None -> Q rest -> Q (String c rest))
+  (Q_esc : forall rn w e rest, f rn w = Some e -> Q rest -> Q (e ++ rest)) :
+  forall s skip copy, (copy = true -> contsb skip s = true) -> Q (rune_map f skip copy s).
   Proof.
     induction s as [|c s IH]; intros skip copy H; cbn [rune_map]; [exact Q_nil|].
     destruct skip as [|k].
@@ -204,7 +200,6 @@ Section RuneMapClosed.
         apply N.leb_le in H1. apply Q_high; [exact H1|]. apply IH. intros _. exact H2.
       + apply IH. intros [=].
   Qed.
-End RuneMapClosed.
 
 (* every output byte satisfies P *)
 Lemma rune_map_str_all f (P : ascii -> bool) :
@@ -346,3 +341,432 @@ Qed.
 Print Assumptions etree_escape_no_markup.
 Print Assumptions etree_escape_no_gt.
 Print Assumptions etree_escape_no_squote.
+
+(* ================================================================ decoders *)
+Lemma unesc_skip ref p X : unesc_go ref (length p) (p ++ X) = unesc_go ref 0 X.
+Proof. induction p as [|c p IH]; cbn [length append unesc_go]; [reflexivity | exact IH]. Qed.
+
+Lemma unesc_not_amp ref c rest :
+  is_ch 38 c = false -> unesc_go ref 0 (String c rest) = String c (unesc_go ref 0 rest).
+Proof. intros H. cbn [unesc_go]. rewrite H. reflexivity. Qed.
+
+Lemma code_eq n c : code c = n -> c = byte n.
+Proof. intros H. apply is_ch_eq. unfold is_ch. apply N.eqb_eq. exact H. Qed.
+
+(* decode . escape = id for a rune loop whose escapes are undone by U *)
+Lemma roundtrip_gen (f : N -> nat -> option string) (ok : N -> nat -> bool) (U : string -> string)
+  (U_nil : U EmptyString = EmptyString)
+  (U_high : forall c rest, (128 <= code c)%N -> U (String c rest) = String c (U rest))
+  (U_ascii : forall c, (code c < 128)%N -> ok (code c) 1%nat = true ->
+     match f (code c) 1%nat with
+     | Some e => forall rest, U (e ++ rest) = String c (U rest)
+     | None => forall rest, U (String c rest) = String c (U rest)
+     end)
+  (f_high : forall rn w, (128 <= rn)%N -> ok rn w = true -> f rn w = None) :
+  forall s skip, valid_go ok skip s = true -> contsb skip s = true -> U (rune_map f skip true s) = s.
+  Proof.
+    induction s as [|c s IH]; intros skip V C; cbn [rune_map valid_go] in *; [exact U_nil|].
+    destruct skip as [|k].
+    - destruct (decode_rune (String c s)) as [rn w] eqn:D. apply decode_spec in D.
+      apply andb_true_iff in V as [Vok Vrest].
+      destruct D as [(L & -> & ->) | (Hh & Hr & Hc & Hw)].
+      + pose proof (U_ascii c L Vok) as HU. cbn [Nat.sub] in *.
+        destruct (f (code c) 1%nat) as [e|].
+        * rewrite HU, rune_map_copy_irrelevant, IH; [reflexivity | exact Vrest | reflexivity].
+        * rewrite HU, IH; [reflexivity | exact Vrest | reflexivity].
+      + rewrite (f_high rn w Hr Vok). rewrite U_high by exact Hh.
+        rewrite IH; [reflexivity | exact Vrest | exact Hc].
+    - cbn [contsb] in C. apply andb_true_iff in C as [C1 C2]. apply N.leb_le in C1.
+      rewrite U_high by exact C1. rewrite IH; [reflexivity | exact V | exact C2].
+  Qed.
+
+Lemma high_is_not_amp c : (128 <= code c)%N -> is_ch 38 c = false.
+Proof. intros H. unfold is_ch. apply N.eqb_neq. lia. Qed.
+
+Lemma etree_undo m c : (code c < 128)%N -> xml_rune_ok (code c) 1%nat = true ->
+  match etree_esc m (code c) 1%nat with
+  | Some e => forall rest, xml_unescape (e ++ rest) = String c (xml_unescape rest)
+  | None => forall rest, xml_unescape (String c rest) = String c (xml_unescape rest)
+  end.
+Proof.
+  intros L OK. unfold etree_esc.
+  destruct (N.eqb_spec (code c) 38) as [E|E38]; [apply code_eq in E; subst c; intro; reflexivity|].
+  assert (NA : forall rest, xml_unescape (String c rest) = String c (xml_unescape rest)).
+  { intro. apply unesc_not_amp. apply N.eqb_neq. exact E38. }
+  destruct (N.eqb_spec (code c) 60) as [E|_]; [apply code_eq in E; subst c; intro; reflexivity|].
+  destruct (N.eqb_spec (code c) 62) as [E|_]; [destruct m; solve [exact NA | apply code_eq in E; subst c; intro; reflexivity]|].
+  destruct (N.eqb_spec (code c) 39) as [E|_]; [destruct m; solve [exact NA | apply code_eq in E; subst c; intro; reflexivity]|].
+  destruct (N.eqb_spec (code c) 34) as [E|_]; [destruct m; solve [exact NA | apply code_eq in E; subst c; intro; reflexivity]|].
+  destruct (N.eqb_spec (code c) 9) as [E|_]; [destruct m; solve [exact NA | apply code_eq in E; subst c; intro; reflexivity]|].
+  destruct (N.eqb_spec (code c) 10) as [E|_]; [destruct m; solve [exact NA | apply code_eq in E; subst c; intro; reflexivity]|].
+  destruct (N.eqb_spec (code c) 13) as [E|_]; [destruct m; solve [exact NA | apply code_eq in E; subst c; intro; reflexivity]|].
+  unfold xml_rune_ok in OK. apply andb_true_iff in OK as [_ OK]. rewrite OK.
+  destruct (N.eqb_spec (code c) RE) as [E|_]; [unfold RE in E; lia|]. exact NA.
+Qed.
+
+Lemma etree_esc_high m rn w : (128 <= rn)%N -> xml_rune_ok rn w = true -> etree_esc m rn w = None.
+Proof.
+  intros H OK. unfold etree_esc.
+  repeat match goal with
+         | |- context [(rn =? ?k)%N] =>
+             lazymatch k with RE => fail | _ => destruct (N.eqb_spec rn k); [lia|] end
+         end.
+  unfold xml_rune_ok, not_decode_error in OK.
+  destruct (in_char_range rn), (rn =? RE)%N, (Nat.eqb w 1); cbn in *; congruence.
+Qed.
+
+(* Premise: [valid_xml_text s] = s is well-formed UTF-8 (DecodeRuneInString never reports an
+   error) and every character is in the XML Char range #x9 | #xA | #xD | [#x20-#xD7FF] |
+   [#xE000-#xFFFD] | [#x10000-#x10FFFF].  Holds in all three modes. *)
+Theorem xml_unescape_escape_mode : forall m s,
+  valid_xml_text s = true -> xml_unescape (etree_escape m s) = s.
+Proof.
+  intros m s V. unfold xml_unescape at 1, etree_escape.
+  apply (roundtrip_gen (etree_esc m) xml_rune_ok (unesc_go xml_ref 0)).
+  - reflexivity.
+  - intros c rest H. apply unesc_not_amp, high_is_not_amp, H.
+  - intros c L OK. apply (etree_undo m c L OK).
+  - apply etree_esc_high.
+  - exact V.
+  - reflexivity.
+Qed.
+
+Theorem xml_unescape_escape : forall s,
+  valid_xml_text s = true -> xml_unescape (etree_escape Normal s) = s.
+Proof. intros s. apply xml_unescape_escape_mode. Qed.
+Print Assumptions xml_unescape_escape.
+Print Assumptions xml_unescape_escape_mode.
+
+(* ================================================================ 4. html/template attrEscaper *)
+(* The rune loop of htmlReplacer with htmlReplacementTable is a byte-wise substitution
+   (whatever the input: invalid UTF-8 is copied byte for byte). *)
+Theorem html_attr_escape_bytewise : forall s, html_attr_escape s = concat_map html_attr_byte s.
+Proof.
+  intros s. unfold html_attr_escape.
+  rewrite (rune_map_bytewise (fun r _ => html_repl r)); [reflexivity | | reflexivity].
+  intros rn w H. unfold html_repl. destruct (N.ltb_spec rn 63); [lia | reflexivity].
+Qed.
+Print Assumptions html_attr_escape_bytewise.
+
+Definition html_refs : list string := ["&#34;"; "&amp;"; "&#39;"; "&#43;"; "&lt;"; "&gt;"].
+
+(* double quote, <, >, single quote.  NOT the backquote: see html_attr_escape_backquote below. *)
+Definition html_structure_char (c : ascii) : bool := is_ch 34 c || is_ch 60 c || is_ch 62 c || is_ch 39 c.
+
+Lemma html_attr_byte_no_structure : forall c, str_all (fun x => negb (html_structure_char x)) (html_attr_byte c) = true.
+Proof. bytes. Qed.
+
+Theorem html_attr_escape_no_structure_chars :
+  forall s, str_all (fun c => negb (html_structure_char c)) (html_attr_escape s) = true.
+Proof. intros s. rewrite html_attr_escape_bytewise. apply str_all_concat_map, html_attr_byte_no_structure. Qed.
+
+Theorem html_attr_escape_amp_ok : forall s, amp_ok html_refs (html_attr_escape s) = true.
+Proof.
+  intros s. unfold html_attr_escape. apply rune_map_amp_ok.
+  - bytes.
+  - intros rn w e F rest Hr. esc_inv F; (vm_compute; exact Hr).
+Qed.
+
+Definition html_no_structure (out : string) : bool :=
+  str_all (fun c => negb (html_structure_char c)) out && amp_ok html_refs out.
+
+Theorem html_attr_escape_no_structure : forall s, html_no_structure (html_attr_escape s) = true.
+Proof.
+  intros s. unfold html_no_structure.
+  rewrite html_attr_escape_no_structure_chars, html_attr_escape_amp_ok. reflexivity.
+Qed.
+Print Assumptions html_attr_escape_no_structure.
+
+(* The backquote (0x60) is not in htmlReplacementTable (it is only in the table for unquoted
+   attributes), so the attribute escaper copies it.  Observed on go1.24.0 as well. *)
+Example html_attr_escape_backquote : html_attr_escape "`" = "`".
+Proof. vm_compute. reflexivity. Qed.
+
+(* the URL attribute: same guarantees, being an attrEscaper output *)
+Corollary html_url_attr_escape_no_structure : forall s, html_no_structure (html_url_attr_escape s) = true.
+Proof. intros s. unfold html_url_attr_escape. apply html_attr_escape_no_structure. Qed.
+Print Assumptions html_url_attr_escape_no_structure.
+
+(* url_normalize leaves only bytes that are unreserved, reserved or '%'; in particular no
+   quote, backquote, angle bracket, space, control or non-ASCII byte *)
+Definition url_char (c : ascii) : bool :=
+  is_alnum c || is_ch 33 c || is_ch 35 c || is_ch 36 c || is_ch 38 c || is_ch 42 c || is_ch 43 c || is_ch 44 c
+  || is_ch 47 c || is_ch 58 c || is_ch 59 c || is_ch 61 c || is_ch 63 c || is_ch 64 c || is_ch 91 c || is_ch 93 c
+  || is_ch 45 c || is_ch 46 c || is_ch 95 c || is_ch 126 c || is_ch 37 c.
+
+Lemma url_norm_keep_char : forall c, implb (negb (is_ch 37 c) && negb (url_char c)) (negb (url_norm_keep c EmptyString)) = true.
+Proof. bytes. Qed.
+
+Lemma url_hex_char : forall c, url_char (hex_digit false (code c / 16)) && url_char (hex_digit false (code c mod 16)) = true.
+Proof. bytes. Qed.
+
+Lemma url_norm_keep_url_char c r : url_norm_keep c r = true -> url_char c = true.
+Proof.
+  intros H. destruct (is_ch 37 c) eqn:E37.
+  - unfold url_char. rewrite E37. repeat rewrite orb_true_r. reflexivity.
+  - destruct (url_char c) eqn:U; [reflexivity|]. exfalso.
+    pose proof (url_norm_keep_char c) as K. rewrite E37, U in K. cbn in K.
+    unfold url_norm_keep in H, K. rewrite E37 in H, K. cbn [andb] in H, K.
+    apply negb_true_iff in K. rewrite K in H. discriminate.
+Qed.
+
+Theorem url_normalize_charset : forall s, str_all url_char (url_normalize s) = true.
+Proof.
+  induction s as [|c s IH]; [reflexivity|]. cbn [url_normalize].
+  destruct (url_norm_keep c s) eqn:K.
+  - cbn [str_all]. rewrite (url_norm_keep_url_char _ _ K), IH. reflexivity.
+  - cbn [str_all]. pose proof (url_hex_char c) as H. apply andb_true_iff in H as [H1 H2].
+    rewrite H1, H2, IH. reflexivity.
+Qed.
+Print Assumptions url_normalize_charset.
+
+(* ---- html_unescape . html_attr_escape *)
+Lemma html_undo c rest : is_ch 0 c = false ->
+  html_unescape (html_attr_byte c ++ rest) = String c (html_unescape rest).
+Proof.
+  intros NZ. unfold html_attr_byte, html_repl. unfold is_ch in NZ.
+  destruct (N.ltb_spec (code c) 63) as [L|L].
+  - rewrite NZ.
+    destruct (N.eqb_spec (code c) 34) as [E|_]; [apply code_eq in E; subst c; reflexivity|].
+    destruct (N.eqb_spec (code c) 38) as [E|E38]; [apply code_eq in E; subst c; reflexivity|].
+    destruct (N.eqb_spec (code c) 39) as [E|_]; [apply code_eq in E; subst c; reflexivity|].
+    destruct (N.eqb_spec (code c) 43) as [E|_]; [apply code_eq in E; subst c; reflexivity|].
+    destruct (N.eqb_spec (code c) 60) as [E|_]; [apply code_eq in E; subst c; reflexivity|].
+    destruct (N.eqb_spec (code c) 62) as [E|_]; [apply code_eq in E; subst c; reflexivity|].
+    cbn [append]. apply unesc_not_amp. apply N.eqb_neq. exact E38.
+  - cbn [append]. apply unesc_not_amp. apply N.eqb_neq. lia.
+Qed.
+
+(* Premise actually needed: s contains no NUL byte (NUL is replaced by U+FFFD, which is not
+   reversible).  Well-formed UTF-8 is NOT needed. *)
+Theorem html_unescape_escape_no_nul : forall s, no_nul s = true -> html_unescape (html_attr_escape s) = s.
+Proof.
+  intros s. rewrite html_attr_escape_bytewise.
+  induction s as [|c s IH]; intros H; [reflexivity|].
+  unfold no_nul in *. cbn [str_all] in H. apply andb_true_iff in H as [H1 H2]. apply negb_true_iff in H1.
+  cbn [concat_map]. rewrite (html_undo c _ H1), (IH H2). reflexivity.
+Qed.
+
+Theorem html_unescape_escape : forall s, no_nul_valid_utf8 s = true -> html_unescape (html_attr_escape s) = s.
+Proof.
+  intros s H. unfold no_nul_valid_utf8 in H. apply andb_true_iff in H as [H _].
+  apply html_unescape_escape_no_nul, H.
+Qed.
+Print Assumptions html_unescape_escape_no_nul.
+Print Assumptions html_unescape_escape.
+
+(* NUL is the only obstruction *)
+Example html_attr_escape_nul : html_unescape (html_attr_escape (B [97; 0; 98]%N)) = B [97; 239; 191; 189; 98]%N.
+Proof. vm_compute. reflexivity. Qed.
+
+(* ================================================================ 6. base64 *)
+Lemma b64_val_char : forall x0 x1 x2 x3 x4 x5,
+  b64_val (b64_char (Ascii x0 x1 x2 x3 x4 x5 false false)) = Some (Ascii x0 x1 x2 x3 x4 x5 false false).
+Proof. intros. destruct x0, x1, x2, x3, x4, x5; vm_compute; reflexivity. Qed.
+
+Lemma string_ind3 (P : string -> Prop) :
+  P EmptyString ->
+  (forall a, P (String a EmptyString)) ->
+  (forall a b, P (String a (String b EmptyString))) ->
+  (forall a b c r, P r -> P (String a (String b (String c r)))) ->
+  forall s, P s.
+Proof.
+  intros H0 H1 H2 H3. fix IH 1. intros [|a [|b [|c r]]]; [exact H0 | apply H1 | apply H2 |].
+  apply H3. apply IH.
+Qed.
+
+(* a full quantum: four alphabet characters decode to the three bytes they came from *)
+Lemma b64_dec_quantum a b c rest :
+  b64_dec Q0 (String (b64_char (sx0 a)) (String (b64_char (sx1 a b)) (String (b64_char (sx2 b c))
+                (String (b64_char (sx3 c)) rest))))
+  = option_map (fun t => String a (String b (String c t))) (b64_dec Q0 rest).
+Proof.
+  destruct a as [a0 a1 a2 a3 a4 a5 a6 a7], b as [b0 b1 b2 b3 b4 b5 b6 b7], c as [c0 c1 c2 c3 c4 c5 c6 c7].
+  cbn [sx0 sx1 sx2 sx3].
+  do 4 (cbn [b64_dec]; rewrite b64_val_char).
+  cbn [jn0 jn1 jn2]. reflexivity.
+Qed.
+
+Lemma b64_dec_tail1 a :
+  b64_dec Q0 (String (b64_char (sx0 a)) (String (b64_char (sx1 a zero)) (String pad (String pad EmptyString))))
+  = Some (String a EmptyString).
+Proof.
+  destruct a as [a0 a1 a2 a3 a4 a5 a6 a7]. cbn [sx0 sx1 zero].
+  do 2 (cbn [b64_dec]; rewrite b64_val_char).
+  reflexivity.
+Qed.
+
+Lemma b64_dec_tail2 a b :
+  b64_dec Q0 (String (b64_char (sx0 a)) (String (b64_char (sx1 a b)) (String (b64_char (sx2 b zero)) (String pad EmptyString))))
+  = Some (String a (String b EmptyString)).
+Proof.
+  destruct a as [a0 a1 a2 a3 a4 a5 a6 a7], b as [b0 b1 b2 b3 b4 b5 b6 b7]. cbn [sx0 sx1 sx2 zero].
+  do 3 (cbn [b64_dec]; rewrite b64_val_char).
+  reflexivity.
+Qed.
+
+Theorem base64_decode_encode : forall s, base64_decode (base64_encode s) = Some s.
+Proof.
+  unfold base64_decode. apply (string_ind3 (fun s => b64_dec Q0 (base64_encode s) = Some s)).
+  - reflexivity.
+  - intros a. apply b64_dec_tail1.
+  - intros a b. apply b64_dec_tail2.
+  - intros a b c r IH. cbn [base64_encode]. rewrite b64_dec_quantum, IH. reflexivity.
+Qed.
+Print Assumptions base64_decode_encode.
+
+(* [A-Za-z0-9+/=] *)
+Definition b64_out_char (c : ascii) : bool := is_alnum c || is_ch 43 c || is_ch 47 c || is_ch 61 c.
+
+Lemma b64_char_charset : forall x, b64_out_char (b64_char x) = true.
+Proof. bytes. Qed.
+
+Theorem base64_charset : forall s, str_all b64_out_char (base64_encode s) = true.
+Proof.
+  apply (string_ind3 (fun s => str_all b64_out_char (base64_encode s) = true)).
+  - reflexivity.
+  - intros a. cbn [base64_encode str_all]. rewrite !b64_char_charset. reflexivity.
+  - intros a b. cbn [base64_encode str_all]. rewrite !b64_char_charset. reflexivity.
+  - intros a b c r IH. cbn [base64_encode str_all]. rewrite !b64_char_charset, IH. reflexivity.
+Qed.
+Print Assumptions base64_charset.
+
+(* the base64 alphabet contains none of the bytes html_attr_escape rewrites except '+' *)
+Lemma b64_out_char_html : forall c, implb (b64_out_char c) (negb (html_structure_char c || is_ch 38 c || is_ch 0 c)) = true.
+Proof. bytes. Qed.
+
+(* ================================================================ F8: carriage return *)
+(* Normal mode writes CR raw. *)
+Example etree_normal_keeps_cr : etree_escape Normal (B [97; 13; 98]%N) = B [97; 13; 98]%N.
+Proof. vm_compute. reflexivity. Qed.
+(* The escape/unescape pair still round-trips it (xml_unescape_escape: CR is in the XML Char
+   range), but an XML processor normalises line ends of the raw text before expanding
+   references, so what it reads back is LF (observed with encoding/xml): *)
+Example f8_reader_sees_lf :
+  xml_unescape (xml_eol_normalize (etree_escape Normal (B [97; 13; 98]%N))) = B [97; 10; 98]%N.
+Proof. vm_compute. reflexivity. Qed.
+Example f8_reader_crlf :   (* Go: "a\r\nb\rc\nd" is read back as "a\nb\nc\nd" *)
+  xml_unescape (xml_eol_normalize (etree_escape Normal (B [97;13;10;98;13;99;10;100]%N))) = B [97;10;98;10;99;10;100]%N.
+Proof. vm_compute. reflexivity. Qed.
+
+(* The canonical modes are immune: they never write byte 13, so end-of-line normalisation is
+   the identity on their output and the reader gets s back. *)
+Theorem etree_escape_canon_no_cr : forall m s, m <> Normal -> no_byte 13 (etree_escape m s) = true.
+Proof.
+  intros m s Hm. unfold no_byte, etree_escape. apply rune_map_str_all.
+  - bytes.
+  - destruct m; [congruence | bytes | bytes].
+  - intros rn w e F. esc_inv F; reflexivity.
+Qed.
+
+Lemma xml_eol_normalize_no_cr : forall s, no_byte 13 s = true -> xml_eol_normalize s = s.
+Proof.
+  induction s as [|c s IH]; intros H; [reflexivity|].
+  unfold no_byte in *. cbn [str_all] in H. apply andb_true_iff in H as [H1 H2]. apply negb_true_iff in H1.
+  cbn [xml_eol_normalize]. rewrite H1, (IH H2). reflexivity.
+Qed.
+
+Theorem xml_reader_after_canonical_escape : forall m s, m <> Normal -> valid_xml_text s = true ->
+  xml_unescape (xml_eol_normalize (etree_escape m s)) = s.
+Proof.
+  intros m s Hm V. rewrite xml_eol_normalize_no_cr by (apply etree_escape_canon_no_cr, Hm).
+  apply xml_unescape_escape_mode, V.
+Qed.
+Print Assumptions xml_reader_after_canonical_escape.
+
+(* ================================================================ 2. url.Values.Encode *)
+Definition values_char (c : ascii) : bool := query_char c || is_ch 38 c || is_ch 61 c.
+
+Lemma str_all_concat P sep l :
+  str_all P sep = true -> Forall (fun x => str_all P x = true) l -> str_all P (String.concat sep l) = true.
+Proof.
+  intros Hs H. induction H as [|x l Hx Hl IH]; [reflexivity|].
+  cbn [String.concat]. destruct l as [|y l]; [exact Hx|].
+  rewrite !str_all_app, Hx, Hs. exact IH.
+Qed.
+
+Lemma query_char_values : forall c, implb (query_char c) (values_char c) = true.
+Proof. bytes. Qed.
+
+Theorem values_encode_charset : forall m, str_all values_char (values_encode m) = true.
+Proof.
+  intros m. unfold values_encode. apply str_all_concat; [reflexivity|].
+  apply Forall_forall. intros x Hx. apply in_flat_map in Hx as [kv [_ Hx]].
+  unfold encode_key in Hx. apply in_map_iff in Hx as [v [<- _]].
+  rewrite str_all_app. cbn [str_all].
+  rewrite !(str_all_impl _ _ query_char_values _ (query_escape_charset _)). reflexivity.
+Qed.
+Print Assumptions values_encode_charset.
+
+(* ================================================================ values observed from real Go *)
+(* (go1.24.0 net/url, html/template, encoding/base64, encoding/xml; etree v1.5.0; taken from
+   the output of /verif/harness/cmd/escdiff) *)
+Example go_query_escape_1 :
+  query_escape "https://idp.example.com/sso?x=1&y=2" = "https%3A%2F%2Fidp.example.com%2Fsso%3Fx%3D1%26y%3D2".
+Proof. vm_compute. reflexivity. Qed.
+Example go_query_escape_2 : query_escape "a+b c" = "a%2Bb+c" /\ query_escape (B [240;159;152;128]%N) = "%F0%9F%98%80".
+Proof. split; vm_compute; reflexivity. Qed.
+Example go_query_unescape_1 :
+  query_unescape "a+b" = Some "a b" /\ query_unescape "%2B" = Some "+" /\ query_unescape "%zz" = None.
+Proof. repeat split; vm_compute; reflexivity. Qed.
+Example go_values_encode_1 :
+  values_encode [("b", ["2"; "1"]); ("a", ["x y"; "x+y"]); ("", [""]); ("B", ["~_.-*"])]
+  = "=&B=~_.-%2A&a=x+y&a=x%2By&b=2&b=1".
+Proof. vm_compute. reflexivity. Qed.
+Example go_values_encode_2 :
+  values_encode [("SigAlg", ["http://www.w3.org/2001/04/xmldsig-more#rsa-sha256"]); ("SAMLRequest", ["fZJB+/Qo="]);
+                 ("RelayState", ["/app?a=1&b=2 3"])]
+  = "RelayState=%2Fapp%3Fa%3D1%26b%3D2+3&SAMLRequest=fZJB%2B%2FQo%3D&SigAlg=http%3A%2F%2Fwww.w3.org%2F2001%2F04%2Fxmldsig-more%23rsa-sha256".
+Proof. vm_compute. reflexivity. Qed.
+Example go_etree_1 :
+  etree_escape Normal "<![CDATA[x]]>" = "&lt;![CDATA[x]]&gt;"
+  /\ etree_escape CanonAttr "<![CDATA[x]]>" = "&lt;![CDATA[x]]>"
+  /\ etree_escape Normal "&amp;" = "&amp;amp;".
+Proof. repeat split; vm_compute; reflexivity. Qed.
+Example go_etree_2 :   (* "a\r\nb\rc\nd" *)
+  etree_escape CanonAttr (B [97;13;10;98;13;99;10;100]%N) = "a&#xD;&#xA;b&#xD;c&#xA;d"
+  /\ etree_escape CanonText (B [97;13;10;98;13;99;10;100]%N) = B [97;38;35;120;68;59;10;98;38;35;120;68;59;99;10;100]%N
+  /\ etree_escape Normal (B [97;13;10;98;13;99;10;100]%N) = B [97;13;10;98;13;99;10;100]%N.
+Proof. repeat split; vm_compute; reflexivity. Qed.
+Example go_etree_3 :   (* U+FFFE -> U+FFFD; an encoded surrogate is three invalid bytes; NUL *)
+  etree_escape Normal (B [239;191;190]%N) = B [239;191;189]%N
+  /\ etree_escape Normal (B [237;160;128]%N) = B [239;191;189;239;191;189;239;191;189]%N
+  /\ etree_escape CanonAttr (B [0]%N) = B [239;191;189]%N
+  /\ etree_escape Normal (B [240;159;152;128]%N) = B [240;159;152;128]%N.
+Proof. repeat split; vm_compute; reflexivity. Qed.
+Example go_html_attr_1 :
+  html_attr_escape "a+b" = "a&#43;b"
+  /\ html_attr_escape "<![CDATA[x]]>" = "&lt;![CDATA[x]]&gt;"
+  /\ html_attr_escape (B [0]%N) = B [239;191;189]%N
+  /\ html_attr_escape (B [237;160;128]%N) = B [237;160;128]%N
+  /\ html_attr_escape "https://idp.example.com/sso?x=1&y=2" = "https://idp.example.com/sso?x=1&amp;y=2".
+Proof. repeat split; vm_compute; reflexivity. Qed.
+Example go_html_url_attr_1 :
+  html_url_attr_escape "javascript:alert(1)" = "#ZgotmplZ"
+  /\ html_url_attr_escape "JaVaScRiPt:alert(1)" = "#ZgotmplZ"
+  /\ html_url_attr_escape "https://idp.example.com/sso?x=1&y=2" = "https://idp.example.com/sso?x=1&amp;y=2"
+  /\ html_url_attr_escape "%zz" = "%25zz"
+  /\ html_url_attr_escape "%2B" = "%2B"
+  /\ html_url_attr_escape "a+b" = "a&#43;b"
+  /\ html_url_attr_escape "`" = "%60"
+  /\ html_url_attr_escape "<![CDATA[x]]>" = "%3c![CDATA[x]]%3e".
+Proof. repeat split; vm_compute; reflexivity. Qed.
+Example go_html_url_attr_2 :   (* "httpſ://x": U+017F folds to s, so the scheme passes isSafeURL *)
+  html_url_attr_escape (B [104;116;116;112;197;191;58;47;47;120]%N) = "http%c5%bf://x".
+Proof. vm_compute. reflexivity. Qed.
+Example go_base64_1 :
+  base64_encode "javascript:alert(1)" = "amF2YXNjcmlwdDphbGVydCgxKQ=="
+  /\ base64_encode "Q" = "UQ==" /\ base64_encode (B [239;191;190]%N) = "77++"
+  /\ base64_encode (B [240;159;152;128]%N) = "8J+YgA==".
+Proof. repeat split; vm_compute; reflexivity. Qed.
+Example go_base64_2 :
+  base64_decode "QUJD" = Some "ABC" /\ base64_decode "QQ==" = Some "A"
+  /\ base64_decode "QR==" = Some "A"                          (* non-strict: trailing bits ignored *)
+  /\ base64_decode (B [81;81;61;10;61]%N) = Some "A"          (* "QQ=\n=" *)
+  /\ base64_decode "QQ==QQ==" = None /\ base64_decode "Q" = None /\ base64_decode "a+b" = None.
+Proof. repeat split; vm_compute; reflexivity. Qed.
+Example go_valid_1 :
+  valid_utf8 (B [237;160;128]%N) = false /\ valid_utf8 (B [239;191;190]%N) = true
+  /\ valid_xml_text (B [239;191;190]%N) = false /\ valid_xml_text (B [97;13;10;98;13;99;10;100]%N) = true
+  /\ valid_xml_text (B [0]%N) = false /\ valid_xml_text (B [240;159;152;128]%N) = true.
+Proof. repeat split; vm_compute; reflexivity. Qed.
